@@ -36,10 +36,10 @@ type proofTag = cose.Sign1Tag[fdo.VerifOVHProof, []byte]
 
 type c01Scenario struct {
 	what     string
-	proof    func(p *proofTag) bool                  // alter 61 through its structure (false: n/a)
-	proofRaw func(b []byte) []byte                   // alter 61 bytes
-	entry    func(i int, e *fdo.VerifOVEntry) bool   // alter 63 number i through its structure
-	entryRaw func(i int, b []byte) []byte            // alter 63 bytes
+	proof    func(p *proofTag) bool                // alter 61 through its structure (false: n/a)
+	proofRaw func(b []byte) []byte                 // alter 61 bytes
+	entry    func(i int, e *fdo.VerifOVEntry) bool // alter 63 number i through its structure
+	entryRaw func(i int, b []byte) []byte          // alter 63 bytes
 	to1d     func(t *cose.Sign1[protocol.To1d, []byte]) *cose.Sign1[protocol.To1d, []byte]
 	withheld bool // a proof listed in the property is withheld: must abort before 64
 }
@@ -69,7 +69,7 @@ type c01Env struct {
 	w      *lab.World
 	st     *lab.MemState
 	a, b   *lab.Device
-	cProof *proofTag            // a 61 for a device of another manufacturer (structure donor)
+	cProof *proofTag // a 61 for a device of another manufacturer (structure donor)
 	cEnts  []fdo.VerifOVEntry
 	bOV    *fdo.Voucher
 	blob   *cose.Sign1[protocol.To1d, []byte]
@@ -155,6 +155,9 @@ func c01Kind(x *runCtx, ctx context.Context, r *rand.Rand, k lab.Kind, enc proto
 	pl := func(f func(v *fdo.VerifOVHProof)) func(p *proofTag) bool {
 		return func(p *proofTag) bool { f(&p.Payload.Val); return true }
 	}
+	plr := func(f func(v *fdo.VerifOVHProof)) func(p *proofTag) bool {
+		return func(p *proofTag) bool { f(&p.Payload.Val); resignProof(p, "own1", false); return true }
+	}
 	scen := []c01Scenario{
 		{what: "honest"},
 		// (a) single alterations of 61 without re-signing
@@ -190,6 +193,31 @@ func c01Kind(x *runCtx, ctx context.Context, r *rand.Rand, k lab.Kind, enc proto
 			return true
 		}},
 		// (b) re-signed by another key
+		// (a') the same single alterations made by the real owner (payload altered, then signed again
+		// with the owner key): every check of the device has to stand on its own
+		{what: "61r-guid", proof: plr(func(v *fdo.VerifOVHProof) { v.OVH.Val.GUID[2] ^= 1 }), withheld: true},
+		{what: "61r-devinfo", proof: plr(func(v *fdo.VerifOVHProof) { v.OVH.Val.DeviceInfo += "x" }), withheld: true},
+		{what: "61r-mfgkey", proof: plr(func(v *fdo.VerifOVHProof) { v.OVH.Val.ManufacturerKey = cOV.Header.Val.ManufacturerKey }), withheld: true},
+		{what: "61r-numentries-less", proof: plr(func(v *fdo.VerifOVHProof) { v.NumOVEntries-- }), withheld: true},
+		{what: "61r-numentries-more", proof: plr(func(v *fdo.VerifOVHProof) { v.NumOVEntries++ }), withheld: true},
+		{what: "61r-hmac", proof: plr(func(v *fdo.VerifOVHProof) { v.OVHHmac.Value[0] ^= 1 }), withheld: true},
+		{what: "61r-nonce", proof: plr(func(v *fdo.VerifOVHProof) { v.NonceTO2ProveOV[0] ^= 1 }), withheld: true},
+		{what: "61r-nonce-last-bit", proof: plr(func(v *fdo.VerifOVHProof) { v.NonceTO2ProveOV[15] ^= 0x80 }), withheld: true},
+		{what: "61r-hellohash", proof: plr(func(v *fdo.VerifOVHProof) { v.HelloDeviceHash.Value[0] ^= 1 }), withheld: true},
+		{what: "61r-hellohash-last-bit", proof: plr(func(v *fdo.VerifOVHProof) {
+			v.HelloDeviceHash.Value[len(v.HelloDeviceHash.Value)-1] ^= 0x80
+		}), withheld: true},
+		{what: "61r-hellohash-truncated", proof: plr(func(v *fdo.VerifOVHProof) {
+			v.HelloDeviceHash.Value = v.HelloDeviceHash.Value[:len(v.HelloDeviceHash.Value)-1]
+		}), withheld: true},
+		{what: "61r-certchainhash", proof: plr(func(v *fdo.VerifOVHProof) {
+			if v.OVH.Val.CertChainHash != nil {
+				h := *v.OVH.Val.CertChainHash
+				h.Value = append([]byte{}, h.Value...)
+				h.Value[0] ^= 1
+				v.OVH.Val.CertChainHash = &h
+			}
+		}), withheld: true},
 		{what: "61-resigned-by-stranger", proof: func(p *proofTag) bool { resignProof(p, "own3", false); return true }, withheld: true},
 		{what: "61-resigned-by-stranger-key-swapped", proof: func(p *proofTag) bool { resignProof(p, "own3", true); return true }, withheld: true},
 		{what: "61-resigned-by-manufacturer-key-swapped", proof: func(p *proofTag) bool { resignProof(p, "mfg", true); return true }, withheld: true},
